@@ -32,9 +32,11 @@ CLAIM = {
             "values are compared.",
     "note": "Modelled, not verified: the three normalisations and the load-order emission. Explored only: everything else cl and "
             "gogen do with Go code, on the generated subset (ints, strings, bools, slices, sorted maps, structs, methods, closures, "
-            "defer/recover, switch with fallthrough, labelled break/continue, package-level variables, exit codes, run-time and "
-            "explicit panics). Not generated: generics, goroutines/channels, println/print, `$` in literals, floats, embedding, "
-            "goto, non-gofmt spacing, functions referring to package-level variables declared later (known finding).",
+            "defer/recover and defer order, expression switches (tagged/tagless, init, default anywhere, fallthrough from case and default), "
+            "type switches, select with default on buffered channels, labelled break/continue/goto, while/forever loops, range forms, "
+            "closures capturing loop variables, method values and expressions, multiple assignment, shadowing, iota, arrays and pointers, "
+            "variadic calls, package-level variables, exit codes, run-time and explicit panics). Not generated: generics, goroutines, "
+            "println/print, `$` in literals, floats, embedding, non-gofmt spacing, functions referring to package-level variables declared later (known finding).",
 }
 
 VAR_INIT_ORDER = '''package main
@@ -295,8 +297,15 @@ def run(ctx):
     progs = []      # (id, src, features)
     for pid, src in DET_PROGRAMS.items():
         progs.append((pid, src, {}))
+    # exhaustive small scope: every expression switch with 1-3 cases, default at every position or absent,
+    # every fallthrough subset, tagged and tagless, run on every selecting value
+    msrc, nsw = g9prog.switch_matrix_program()
+    progs.append(("det:switch-matrix", msrc, {}))
+    # every statement-kind template once, whatever the seed
+    ksrc, kfeat = g9prog.statement_kinds_program(vlib.SplitMix(0xC01))
+    progs.append(("det:statement-kinds", ksrc, kfeat))
     nprog = ctx.n(36, 400)
-    feats = {}
+    feats = dict(kfeat)
     for i in range(nprog):
         src, feat = g9prog.go_program(ctx.rng)
         for k, v in feat.items():
@@ -375,14 +384,21 @@ def run(ctx):
               samples=[{"decls": pairs[1][1], "impl": proj[1]}] + samples,
               rule="norm K-diff: %d declaration lists (1 fixed + seeded: 0-2 struct types with grouped fields, 1-5 package-level variables, "
                    "1-4 functions referring to arbitrary variables, shuffled; %d of them are reordered by load order); behavioural "
-                   "differential: %d programs (%d deterministic incl. the witness of the known finding + %d seeded typed programs, %d-%d "
-                   "source lines) each built as Go and as XGo and run; non-trivial = distinct program with >= 3 output lines and identical "
+                   "differential: %d programs (%d deterministic: the witness of the known finding, two hand-written ones, the exhaustive switch matrix "
+                   "(110 switch functions: 1-3 cases x default first/middle/last/absent x every fallthrough subset x tagged/tagless, each run on "
+                   "every selecting value) and one program with every statement-kind template; + %d seeded typed programs, %d-%d "
+                   "source lines; statement kinds: see statement_kind_histogram) each built as Go and as XGo and run; non-trivial = distinct program with >= 3 output lines and identical "
                    "behaviour. The generator does not emit functions that refer to package-level variables declared later (known finding "
                    "var-init-order), nor the constructs listed in the CLAIM note."
-                   % (len(pairs), reordered, len(progs), len(DET_PROGRAMS), nprog,
+                   % (len(pairs), reordered, len(progs), len(DET_PROGRAMS) + 2, nprog,
                       min(len(p[1].splitlines()) for p in progs), max(len(p[1].splitlines()) for p in progs)),
               explanation="kernel theorem on MiniGo normalisations + K-diff of declaration order / field splitting + build-and-run differential",
-              outcome_histogram=outcome, feature_histogram=feats, programs=len(progs))
+              outcome_histogram=outcome, feature_histogram=feats, programs=len(progs),
+              statement_kind_histogram={k: v for k, v in sorted(feats.items())
+                                        if k.startswith(("stmt:", "switch", "fallthrough", "label", "for", "range", "if", "defer", "closure", "method",
+                                                         "assign", "op-assign", "incdec", "decl", "map-", "field-", "struct", "call", "exit", "uncaught",
+                                                         "runtime", "package-var", "sorted-map"))},
+              switch_matrix_functions=nsw)
     ctx.assume("the Go toolchain (go1.23.5) and the OS run both binaries deterministically; stderr is compared up to the goroutine trace",
                "//line comments are switched off (Config.NoFileLine) so that panic traces do not differ by file name")
     ctx.trust("modelled, not verified: marker constant, parenthesis dropping, struct field splitting, load-order emission; explored only: "
